@@ -169,6 +169,15 @@ def hasNestedChildPattern (q : String) : Bool :=
     | depth, _ :: rest => go depth rest
   go 0 toks
 
+/-- `_ . x` with no capture on the `_`. -/
+def anchorAfterUnnamedWildcard (q : String) : Bool :=
+  let toks := (tokenize (q.length + 1) q.toList #[]).toList
+  let rec go : List Tok → Bool
+    | .under :: .dot :: _ => true
+    | _ :: rest => go rest
+    | [] => false
+  go toks
+
 def runCase (s : St) : String :=
   let tail := s!"compiled={s.compiled.getD false} haserror={s.hasError}"
   match buildVT s.nodes.toList with
@@ -205,7 +214,7 @@ def runCase (s : St) : String :=
         else if !quant && !completeB impl model then
           let bad := model.filter fun x => countOf x model > countOf x impl
           let subsumed := bad.all fun x => impl.any fun y => y.1 == x.1 && y != x && subBag x.2 y.2
-          let kind := if subsumed then "incomplete-subsumed" else if (s.query.splitOn "[").length > 1 && (s.query.splitOn "(_ ").length > 1 then "incomplete-wildroot-branch-in-alternation" else if anchorAfterNestedWildcard s.query then "incomplete-anchor-after-nested-wildcard" else if anchorAfterAlternation s.query then "incomplete-anchor-after-uncaptured-alternation" else if uncapturedSubtree s.query then "incomplete-uncaptured-subtree" else if (s.query.splitOn "(MISSING").length > 1 then "incomplete-missing-uncaptured" else if (s.query.splitOn "(ERROR ").length > 1 then "incomplete-error-children-uncaptured" else if anchorAfterUncapturedSubtree s.query then "incomplete-anchor-after-uncaptured-subtree" else if anchorAfterUncaptured s.query then "incomplete-anchor-uncaptured" else "incomplete"
+          let kind := if subsumed then "incomplete-subsumed" else if (s.query.splitOn "[").length > 1 && (s.query.splitOn "(_ ").length > 1 then "incomplete-wildroot-branch-in-alternation" else if anchorAfterNestedWildcard s.query then "incomplete-anchor-after-nested-wildcard" else if anchorAfterAlternation s.query then "incomplete-anchor-after-uncaptured-alternation" else if uncapturedSubtree s.query then "incomplete-uncaptured-subtree" else if (s.query.splitOn "(MISSING").length > 1 then "incomplete-missing-uncaptured" else if (s.query.splitOn "(ERROR ").length > 1 then "incomplete-error-children-uncaptured" else if anchorAfterUncapturedSubtree s.query then "incomplete-anchor-after-uncaptured-subtree" else if anchorAfterUnnamedWildcard s.query then "incomplete-strict-anchor-after-uncaptured-unnamed-wildcard" else if anchorAfterUncaptured s.query then "incomplete-anchor-uncaptured" else "incomplete"
           s!"{s.id} judge=FAIL {kind} first={repr bad.head!} {info}"
         else if cqJudge != "ok" then s!"{s.id} judge=FAIL capture-count-outside-quantifier {info}"
         else s!"{s.id} judge=ok {info}"
@@ -214,7 +223,7 @@ def runCase (s : St) : String :=
         let line := ((s.query.toList.take s.errOffset).filter (· == '\n')).length
         let modelHere := model.filter fun x => x.1 == line
         if s.errOffset > s.srcLen then s!"{s.id} judge=FAIL offset-outside-source {info}"
-        else if !s.hasError && !modelHere.isEmpty then s!"{s.id} judge=FAIL rejected-but-matches errkind={s.errKind} pattern={line} optional={optionalParts s.query} {info}"
+        else if !s.hasError && !modelHere.isEmpty then s!"{s.id} judge=FAIL rejected-but-matches errkind={s.errKind} pattern={line} optional={optionalParts s.query} extras={decide ((s.query.splitOn "(comment").length > 1)} {info}"
         else s!"{s.id} judge=ok rejected={s.errKind} {info}"
 
 def step (s : St) (line : String) : IO St := do
